@@ -67,7 +67,7 @@ def split_cases(out):
     return res
 
 
-def run_impl(stream, hbin, cases, workdir, tag):
+def run_impl(stream, hbin, cases, workdir, tag, base=0):
     """Run the harness over all cases, surviving sanitizer aborts. Returns (outs, crashes)
     outs[i] = list of output lines or None when case i crashed; crashes = list of (i, rc, stderr)."""
     outs = [None] * len(cases)
@@ -77,7 +77,8 @@ def run_impl(stream, hbin, cases, workdir, tag):
     while start < len(cases) and rounds < 25:
         rounds += 1
         p = os.path.join(workdir, "%s.%s.in" % (tag, stream.name))
-        write_cases(p, cases[start:], start)
+        # the case number is part of the input: harnesses seed their scripted RNG from it
+        write_cases(p, cases[start:], start + base)
         rc, out, err, _ = vlib.run_prog([hbin], p, timeout=stream.timeout, env=stream.env)
         per = split_cases(out)
         if rc == 0 or (len(per) == len(cases) - start and "LeakSanitizer" in err and "ERROR: AddressSanitizer" not in err):
@@ -89,7 +90,7 @@ def run_impl(stream, hbin, cases, workdir, tag):
                 runs = 0
                 while hi - lo > 1 and runs < 14:
                     mid = (lo + hi) // 2
-                    write_cases(p, cases[lo:mid], lo)
+                    write_cases(p, cases[lo:mid], lo + base)
                     rc2, _, err2, _ = vlib.run_prog([hbin], p, timeout=stream.timeout, env=stream.env)
                     runs += 1
                     if rc2 != 0:
@@ -267,6 +268,7 @@ def run_check(prop, tier, seed, replay=None):
     disagreements = 0
     stream_info = {}
     driver_ok = ok
+    replay_base = 0
     for st in mod.STREAMS:
         rng = random.Random(rng_master.getrandbits(64))
         sinfo = {}
@@ -280,6 +282,11 @@ def run_check(prop, tier, seed, replay=None):
             cases, cur = [], None
             for l in lines:
                 if l.startswith("case "):
+                    if not cases:
+                        try:
+                            replay_base = int(l.split()[1])
+                        except (IndexError, ValueError):
+                            replay_base = 0
                     cur = []
                     cases.append(cur)
                 elif cur is None:
@@ -298,12 +305,12 @@ def run_check(prop, tier, seed, replay=None):
             sinfo["corpus_cases"] = len(cases)
             cases += st.gen(rng, tier)
         t1 = time.time()
-        impl_outs, crashes = run_impl(st, hbin, cases, workdir, tier)
+        impl_outs, crashes = run_impl(st, hbin, cases, workdir, tier, base=replay_base)
         sinfo["impl_s"] = round(time.time() - t1, 2)
         for (ci, rc, err, partial) in crashes:
             sig = "sanitizer-abort:" + st.name + ":" + sanitizer_sig(err)
             violation(sig, "implementation aborted (rc=%s) on case %d\n%s" % (rc, ci, sanitizer_excerpt(err)),
-                      ["case 0"] + cases[ci], stream=st.name)
+                      ["case %d" % (ci + replay_base)] + cases[ci], stream=st.name)
         model_outs = None
         if st.driver and driver_ok:
             try:
@@ -338,8 +345,8 @@ def run_check(prop, tier, seed, replay=None):
                 if d is not None:
                     disagree = d
             for (sig, msg) in mon:
-                def pred(cand, sig=sig):
-                    o, cr = run_impl(st, hbin, [cand], workdir, "shrink")
+                def pred(cand, sig=sig, i=i):
+                    o, cr = run_impl(st, hbin, [cand], workdir, "shrink", base=i + replay_base)
                     if cr:
                         return False
                     m2 = (st.monitor(cand, o[0]) if st.monitor else []) + \
@@ -347,7 +354,7 @@ def run_check(prop, tier, seed, replay=None):
                     return any(s == sig for s, _ in m2)
                 small = shrink(st, hbin, c, pred, workdir) if len(violations) < 5 and not match_known(known, prop, sig) else c
                 violation("monitor:" + st.name + ":" + sig, "property fails on the implementation: " + msg,
-                          ["case 0"] + small, stream=st.name)
+                          ["case %d" % (i + replay_base)] + small, stream=st.name)
             if disagree is not None:
                 disagreements += 1
                 if not mon:
@@ -355,8 +362,8 @@ def run_check(prop, tier, seed, replay=None):
                     a = io[disagree] if disagree < len(io) else "<missing>"
                     b = mo[disagree] if disagree < len(mo) else "<missing>"
 
-                    def pred2(cand):
-                        o, cr = run_impl(st, hbin, [cand], workdir, "shrink")
+                    def pred2(cand, i=i):
+                        o, cr = run_impl(st, hbin, [cand], workdir, "shrink", base=i + replay_base)
                         if cr:
                             return False
                         try:
@@ -368,7 +375,7 @@ def run_check(prop, tier, seed, replay=None):
                     violation("disagree:" + st.name,
                               "implementation and Lean model disagree (stream %s, op #%d: impl=%r model=%r); "
                               "no monitor flagged the property itself on this input" % (st.name, disagree, a, b),
-                              ["case 0"] + small, found=False, stream=st.name)
+                              ["case %d" % (i + replay_base)] + small, found=False, stream=st.name)
         sinfo["cases"] = len(cases)
         stream_info[st.name] = sinfo
 
